@@ -71,15 +71,15 @@ theorem inv5_stepCasC {s s' : State} {t : Tid} {o : Ord} {loc : Loc} {exp new ob
         have hkc : (s.wr k).cond = c.cond := h.h3 t k c.cond (by rw [heq]; simp [PC.limboC, hcw])
         have hwrc : ∀ x, ((setPc (if c.first = true then enqLast { s with word := mwEnqWord c.cond.isSome old, sp := some t } k
               else enqFirst { s with word := mwEnqWord c.cond.isSome old, sp := some t } k) t
-              (PC.mwRelLd { c with hadW := old.waiting && !old.desig, first := false })).wr x).cond = (s.wr x).cond := by
+              (PC.mwRelLd { c with hadW := old.waiting, first := false })).wr x).cond = (s.wr x).cond := by
           intro x; split <;> simp [enqLast, enqFirst, cond_of_merge]
         have hwd : (setPc (if c.first = true then enqLast { s with word := mwEnqWord c.cond.isSome old, sp := some t } k
               else enqFirst { s with word := mwEnqWord c.cond.isSome old, sp := some t } k) t
-              (PC.mwRelLd { c with hadW := old.waiting && !old.desig, first := false })).word = mwEnqWord c.cond.isSome old := by
+              (PC.mwRelLd { c with hadW := old.waiting, first := false })).word = mwEnqWord c.cond.isSome old := by
           split <;> simp [enqLast, enqFirst]
         have hQ : ∀ x, Queued (setPc (if c.first = true then enqLast { s with word := mwEnqWord c.cond.isSome old, sp := some t } k
               else enqFirst { s with word := mwEnqWord c.cond.isSome old, sp := some t } k) t
-              (PC.mwRelLd { c with hadW := old.waiting && !old.desig, first := false })) x → x = k ∨ Queued s x := by
+              (PC.mwRelLd { c with hadW := old.waiting, first := false })) x → x = k ∨ Queued s x := by
           intro x hx
           rcases hx with hx | ⟨u, sc, h1, h2⟩
           · have : x = k ∨ x ∈ s.queue := by
